@@ -254,6 +254,47 @@ def body_end_to_end(ctx, kind):
         if removed:
             ds = ds.drop_vars('x_left')
             expect = 'CFGrid2D'
+    elif kind.startswith('shoc_standard_longname'):
+        # a coordinate replaced by a variable whose (longer) name starts the same way: still a near miss
+        ds = builders.shoc_standard(2, 3)
+        expect = 'ShocStandard'
+        if removed:
+            old = {'shoc_standard_longname_ycentre': 'y_centre', 'shoc_standard_longname_xcentre': 'x_centre', 'shoc_standard_longname_xgrid': 'x_grid'}[kind]
+            ds = ds.rename({old: old + '2'})
+            ds[old + '_as_it_was_in_the_previous_release_of_the_model'] = ds[old + '2']
+            expect = 'CFGrid2D'
+    elif kind.startswith('many_registered'):
+        # many extra conventions that all match, registered by hand: highest specificity first, earliest on ties
+        from emsarray.conventions import _registry, register_convention
+        from emsarray.conventions.grid import CFGrid1D
+        specs = {'many_registered_below': [9] + [8, 7, 6, 5, 4, 3, 2, 1, 1, 1, 1, 1, 1],
+                 'many_registered_ties': [3, 10, 10, 10, 10, 10, 10, 10, 10, 10, 10, 10, 10],
+                 'many_registered_late_winner': [11, 11, 11, 11, 11, 11, 11, 11, 11, 11, 11, 11, 12, 11],
+                 'many_registered_mixed': [1, 9, 2, 8, 3, 7, 4, 6, 5, 5, 6, 4, 7, 3, 8, 2, 9, 1, 31, 30]}[kind]
+        ds = builders.cf1d(2, 3)
+        reg = _registry.registry
+        before = list(reg.registered_conventions)
+        classes = []
+        for k, sp in enumerate(specs):
+            classes.append(type(f'Extra{k:02d}', (CFGrid1D,), {'check_dataset': classmethod(lambda cls, dataset, _sp=sp: _sp if not removed else None)}))
+        try:
+            for c in classes:
+                register_convention(c)
+            cls = get_dataset_convention(ds)
+            if removed:
+                want = 'CFGrid1D'
+            else:
+                best = max(max(specs), 10)
+                want = next((c.__name__ for c, sp in zip(classes, specs) if sp == best), 'CFGrid1D')
+            ctx.check(cls is not None and cls.__name__ == want, f'{kind}: the matching convention with the highest specificity is chosen (earliest registered on ties)')
+            ctx.check(type(ds.ems).__name__ == want, 'the accessor binds the detected convention')
+        finally:
+            reg.registered_conventions[:] = before
+            try:
+                del reg.conventions
+            except AttributeError:
+                pass
+        return
     elif kind == 'thin_subclass':
         # an extra convention written as a small subclass of a built-in one: it only swaps the topology helper and
         # inherits everything else, detection included
@@ -426,6 +467,9 @@ def cases(tier):
         yield Case(f'detector:cf{rank}d', body_cf_detector, dict(rank=rank), max_paths=100000, split=32)
     for kind in ('cf1d', 'cf2d', 'shoc_simple', 'shoc_simple_i', 'shoc_simple_j', 'shoc_standard', 'shoc_standard_xgrid', 'shoc_standard_ycentre',
                  'ugrid_marker', 'ugrid_mesh', 'nothing'):
+        yield Case(f'detect:{kind}', body_end_to_end, dict(kind=kind), max_paths=10)
+    for kind in ('shoc_standard_longname_ycentre', 'shoc_standard_longname_xcentre', 'shoc_standard_longname_xgrid',
+                 'many_registered_below', 'many_registered_ties', 'many_registered_late_winner', 'many_registered_mixed'):
         yield Case(f'detect:{kind}', body_end_to_end, dict(kind=kind), max_paths=10)
     yield Case('detect:thin_subclass', body_end_to_end, dict(kind='thin_subclass'), max_paths=10)
     yield Case('detect:shoc_standard_after_custom_names', body_end_to_end, dict(kind='shoc_standard_after_custom_names'), max_paths=10)
